@@ -1,5 +1,5 @@
 /*
- * C18 (C++ leg): mpt::linepart::array (apply / set / length_user / length_raw)
+ * C18 (C++ leg; built with -fno-sanitize=vptr, see props/C18.py): mpt::linepart::array (apply / set / length_user / length_raw)
  * and mpt::polyline over a harness transform whose part() is
  * mpt_linepart_linear with a range per dimension.
  *
@@ -218,16 +218,84 @@ static void case_apply2(vf_rng *r)
 	vf_sample("%s", desc);
 }
 
+
+/* -------------------------------------------------------------- polyline */
+static void case_polyline(vf_rng *r)
+{
+	static const double rg[2] = { 0, 1 };
+	size_t n = vf_chance(r, 1, 40) ? 65000 + vf_below(r, 70000) : 1 + vf_below(r, 50);
+	double *v = static_cast<double *>(vf_xalloc(n * sizeof(*v)));
+	RT tr(1);
+	char desc[500];
+	size_t l = 0;
+
+	gen_data(r, v, n, 0, 1, n > 1000 ? 15 : vf_below(r, 14));
+	tr.set(0, 0, 1);
+	vf_fp_u64(0x9017); vf_fp(v, n * sizeof(*v));
+	l += snprintf(desc, sizeof(desc), "polyline::set 1 dim, range [0,1] n=%zu:", n);
+	for (size_t i = 0; i < n && l + 30 < sizeof(desc); i++) l += snprintf(desc + l, sizeof(desc) - l, " %.17g", v[i]);
+	vf_log("%s", desc);
+	if (c18_crossings(v, n, rg)) vf_nontrivial();
+
+	mpt::value_store st;
+	double *stored = st.set(mpt::span<const double>(v, n));
+	if (!stored) vf_inconclusive("value_store::set refused %zu doubles", n);
+	mpt::polyline pl;
+	vf_at("polyline::set");
+	bool ok = pl.set(tr, mpt::span<const mpt::value_store>(&st, 1));
+	vf_count("polyline::set", 1);
+
+	mpt::span<const mpt::linepart> lp = pl.parts();
+	std::vector<c18_part> p;
+	long su = 0;
+	for (auto &e : lp) { c18_part c = { e.raw, e.usr, e._cut, e._trim }; p.push_back(c); su += e.usr; }
+	if (vf_logging) for (auto &e : p) vf_log("  part {raw=%u usr=%u cut=%u trim=%u}", e.raw, e.usr, e.cut, e.trim);
+	c18_check_parts("polyline", v, n, rg, p.data(), p.size(), 0, n <= 65533 ? C18_COMPLETE : 0);
+	VF_CHECK(ok == (su > 0), "cxx:polyline:result", "set() returned %d with %ld drawn points", ok, su);
+	mpt::span<const mpt::polyline::point> pts = pl.points();
+	VF_CHECK((long) pts.size() == su, "cxx:polyline:point-count", "%ld points for parts drawing %ld", (long) pts.size(), su);
+	/* drawn point i of part k is raw value o_k + i (the harness transform copies the value to x) */
+	size_t o = 0, uo = 0;
+	for (auto &e : p) {
+		for (size_t i = 0; i < e.usr; i++) {
+			const mpt::polyline::point &q = pts.begin()[uo + i];
+			if (memcmp(&q.x, &v[o + i], sizeof(double)) || q.y != -78) {
+				vf_fail("cxx:polyline:point-value", "drawn point %zu of part at raw offset %zu is (%.17g,%.17g), expected (%.17g,-78)", i, o, q.x, q.y, v[o + i]);
+			}
+			vf_count("monitor:polyline-points", 1);
+		}
+		o += e.raw; uo += e.usr;
+	}
+	/* iteration over parts */
+	size_t k = 0;
+	const mpt::polyline::point *base = pts.begin();
+	uo = 0;
+	for (mpt::polyline::iterator it = pl.begin(), end = pl.end(); k <= p.size() && it != end; ++it, ++k) {
+		if (k == p.size()) break;
+		mpt::polyline::part pt = *it;
+		size_t vis = p[k].usr - (p[k].cut ? 1 : 0) - (p[k].trim ? 1 : 0);
+		VF_CHECK(pt.line().size() == (long) p[k].usr && (!p[k].usr || pt.line().begin() == base + uo), "cxx:polyline:iterator-line", "part %zu: line() has %ld points at offset %ld, expected %u at %zu", k, (long) pt.line().size(), (long) (pt.line().begin() - base), p[k].usr, uo);
+		if (p[k].usr >= 2) VF_CHECK(pt.points().size() == (long) vis, "cxx:polyline:iterator-points", "part %zu {usr=%u cut=%u trim=%u}: points() has %ld", k, p[k].usr, p[k].cut, p[k].trim, (long) pt.points().size());
+		uo += p[k].usr;
+	}
+	vf_count("monitor:polyline-parts-iterated", k);
+	vf_xfree(v, n * sizeof(*v));
+	vf_sample("%s", desc);
+}
+
 /* ----------------------------------------------------------------- entry */
 static uint64_t n_a1() { return vf_thorough ? 400000 : 40000; }
 static uint64_t n_set() { return vf_thorough ? 2000 : 200; }
 static uint64_t n_a2() { return vf_thorough ? 400000 : 40000; }
+static uint64_t n_pl() { return vf_thorough ? 200000 : 20000; }
 
-extern "C" uint64_t vf_cases(void) { return n_a1() + n_set() + n_a2(); }
+extern "C" uint64_t vf_cases(void) { return n_a1() + n_set() + n_a2() + n_pl(); }
 extern "C" void vf_case(uint64_t idx, vf_rng *r)
 {
 	if (idx < n_a1()) { case_apply1(r); return; }
 	idx -= n_a1();
 	if (idx < n_set()) { case_set(idx, r); return; }
-	case_apply2(r);
+	idx -= n_set();
+	if (idx < n_a2()) { case_apply2(r); return; }
+	case_polyline(r);
 }
